@@ -208,7 +208,9 @@ func Start(response http.ResponseWriter, request *http.Request, createIfNew bool
 			lastUserAgentHash: agentHash,
 			data:              make(map[string]interface{}),
 		}
-		sessions.Set(session)
+		if err = sessions.Set(session); err != nil {
+			return nil, fmt.Errorf("Could not save new session: %s", err)
+		}
 
 		// Also set the cookie.
 		cookie = NewSessionCookie()
